@@ -73,6 +73,11 @@ def gen_preserve_tree(rng: random.Random) -> Dict[str, Any]:
             vn = rng.choice([f"someVar{k}x{v}", f"CONSTANT_{k}_{v}", f"lower_var_{k}_{v}"])
             parts.append(f"{vn} = {v + 10}\n")
             d["vars"].append(vn)
+        # the library itself mentions one of its own names as an attribute of something else
+        # (obj.render next to def render): its own mention must not cancel what other files need
+        if d["funcs"] and rng.random() < 0.5:
+            n_attr = rng.choice(d["funcs"] + d["vars"]) if d["vars"] else rng.choice(d["funcs"])
+            parts.append(f"def touch_{k}(obj):\n    return obj.{n_attr}\n\n\nprint(touch_{k})\n")
         # some internal use so not everything is unused
         if d["funcs"] and rng.random() < 0.7:
             used = rng.sample(d["funcs"], rng.randint(1, len(d["funcs"])))
@@ -142,9 +147,9 @@ def preserve_paths(rng: random.Random, tree: Dict[str, Any]) -> Tuple[List[str],
     libs = ["<ROOT>/" + l["rel"] for l in tree["libs"]]
     clients = ["<ROOT>/" + c for c in tree["clients"]]
     r = rng.random()
-    if r < 0.6:
+    if r < 0.5:
         paths, preserve = libs, clients
-    elif r < 0.8:
+    elif r < 0.7:
         paths, preserve = ["<ROOT>"], clients  # clients are formatted too, and preserved
     else:
         paths, preserve = ["<ROOT>"], ["<ROOT>"]  # pyrefact pkg --preserve pkg
